@@ -4,11 +4,13 @@ package gobinlog_test
 // `case` line: abstract input, input bytes, observed output (projected). TLC (Trace_Codec.tla) judges.
 
 import (
-	"time"
 	"fmt"
 	"math/rand"
 	"os"
+	"reflect"
 	"strconv"
+	"strings"
+	"time"
 
 	"github.com/Breeze0806/gobinlog/replication"
 )
@@ -540,40 +542,56 @@ func e2eMode(fam string, pickCol func(r *rand.Rand) Col, statePatterns bool) fun
 				nu = 4 + e.R.Intn(3)
 			}
 			for u := 0; u < nu; u++ {
-				kind := pickS(e.R, "write", "update", "delete")
 				t := variants[u%len(variants)]
-				ev := &Ev{K: kind, TS: ts, Tbl: t}
-				var pb, pa []bool
-				if statePatterns {
-					// every column position takes every state over the rows of the event
-					pb, pa = make([]bool, ncols), make([]bool, ncols)
-					for c := range pb {
-						pb[c], pa[c] = e.R.Intn(4) != 0, e.R.Intn(4) != 0
-					}
-					pb[e.R.Intn(ncols)], pa[e.R.Intn(ncols)] = true, true
-				} else {
-					pb, pa = genPresent(e.R, ncols), genPresent(e.R, ncols)
+				// every fourth scenario: several rows events under ONE table map (a multi-row statement split over events, or
+				// INSERT ... ON DUPLICATE KEY UPDATE under a minimal row image), each with its own kind and presence bitmaps
+				nev := 1
+				if i%4 == 1 {
+					nev = 2 + e.R.Intn(2)
 				}
-				for rw := 0; rw < 1+e.R.Intn(4); rw++ {
-					mk := func(present []bool, used bool) []Cell {
-						cells := make([]Cell, ncols)
-						for c := range cells {
-							switch {
-							case !used || !present[c]:
-								cells[c] = Cell{St: "absent"}
-							case e.R.Intn(4) == 0:
-								cells[c] = Cell{St: "null"}
-							case statePatterns && e.R.Intn(3) == 0:
-								cells[c] = Cell{St: "val", Bytes: emptyValue(&t.Cols[c])}
-							default:
-								cells[c] = Cell{St: "val", Bytes: genCell(e.R, &t.Cols[c], 60)}
-							}
+				var evs []*Ev
+				for k := 0; k < nev; k++ {
+					kind := pickS(e.R, "write", "update", "delete")
+					ev := &Ev{K: kind, TS: ts, Tbl: t}
+					var pb, pa []bool
+					if statePatterns {
+						// every column position takes every state over the rows of the event
+						pb, pa = make([]bool, ncols), make([]bool, ncols)
+						for c := range pb {
+							pb[c], pa[c] = e.R.Intn(4) != 0, e.R.Intn(4) != 0
 						}
-						return cells
+						pb[e.R.Intn(ncols)], pa[e.R.Intn(ncols)] = true, true
+					} else {
+						pb, pa = genPresent(e.R, ncols), genPresent(e.R, ncols)
 					}
-					ev.Rows = append(ev.Rows, RowPair{B: mk(pb, kind != "write"), A: mk(pa, kind != "delete")})
+					for rw := 0; rw < 1+e.R.Intn(4); rw++ {
+						mk := func(present []bool, used bool) []Cell {
+							cells := make([]Cell, ncols)
+							for c := range cells {
+								switch {
+								case !used || !present[c]:
+									cells[c] = Cell{St: "absent"}
+								case e.R.Intn(4) == 0:
+									cells[c] = Cell{St: "null"}
+								case statePatterns && e.R.Intn(3) == 0:
+									cells[c] = Cell{St: "val", Bytes: emptyValue(&t.Cols[c])}
+								default:
+									cells[c] = Cell{St: "val", Bytes: genCell(e.R, &t.Cols[c], 60)}
+								}
+							}
+							return cells
+						}
+						ev.Rows = append(ev.Rows, RowPair{B: mk(pb, kind != "write"), A: mk(pa, kind != "delete")})
+					}
+					evs = append(evs, ev)
 				}
-				f.Units = append(f.Units, &Unit{U: "autorow", Evs: []*Ev{{K: "tablemap", TS: ts, Tbl: t}, ev}})
+				if nev == 1 {
+					f.Units = append(f.Units, &Unit{U: "autorow", Evs: []*Ev{{K: "tablemap", TS: ts, Tbl: t}, evs[0]}})
+				} else {
+					all := []*Ev{{K: "query", TS: ts, Cat: "begin", DB: "dv", SQL: "BEGIN"}, {K: "tablemap", TS: ts, Tbl: t}}
+					all = append(append(all, evs...), &Ev{K: "xid", TS: ts})
+					f.Units = append(f.Units, &Unit{U: "txxid", Evs: all})
+				}
 			}
 			l.Layout()
 			RunStreamScenario(e.Rec, &StreamScenario{ID: i + 1, Fam: fam, Log: l, Start: l.Boundaries()[0], ServerID: 3,
@@ -1405,6 +1423,7 @@ func histWriterCases(e *Env) {
 // modeC17a: the validity test on arbitrary bytes; header accessors on accepted buffers.
 func modeC17a(e *Env) {
 	try := func(buf []byte, cls string) {
+		buf = append(make([]byte, 0, len(buf)), buf...) // capacity = length, as the connection layer produces its events
 		ev := replication.NewMysql56BinlogEvent(buf)
 		valid := false
 		rec := safely(func() { valid = ev.IsValid() })
@@ -1428,6 +1447,19 @@ func modeC17a(e *Env) {
 				_ = ev.IsDeleteRows()
 				_ = ev.IsPseudo()
 				_ = ev.Bytes()
+				// every accessor without arguments the event type has, whether or not the BinlogEvent interface lists it
+				// (Type, Flags, ServerID, Length, ...), on both flavors' wrappers
+				for _, x := range []interface{}{ev, replication.NewMariadbBinlogEvent(buf)} {
+					v := reflect.ValueOf(x)
+					for mi := 0; mi < v.NumMethod(); mi++ {
+						name := v.Type().Method(mi).Name
+						header := strings.HasPrefix(name, "Is") || name == "Type" || name == "Flags" || name == "Timestamp" || name == "ServerID" ||
+							name == "Length" || name == "NextPosition" || name == "Bytes"
+						if header && v.Method(mi).Type().NumIn() == 0 {
+							v.Method(mi).Call(nil)
+						}
+					}
+				}
 			})
 			o["accpanic"] = r2.panicked
 		}
